@@ -1,4 +1,6 @@
 """C06 Yields and seasonal totals agree with the daily tables - row + summary monitor."""
+import datetime as dt
+
 import numpy as np
 import pandas as pd
 
@@ -36,7 +38,10 @@ def cases(tier, seed):
     for i in range(n):
         rng = gen.rng_for(seed, ID, i)
         cls = i % 6
-        kw = dict(crops=[names[i % len(names)]], seasons=(1, 3), p_gw=0.15, end_shape="after",
+        # every third window ends inside a growing season (a season that did not reach harvest
+        # has no summary row) or on a planting anniversary
+        kw = dict(crops=[names[i % len(names)]], seasons=(1, 3), p_gw=0.15,
+                  end_shape=("after", "after", "mid", "after", "anniv", "after", "mid")[i % 7],
                   harvest_early=0.15)
         if cls == 1:
             kw.update(methods=(4,), dry=True, off_season=False, seasons=(2, 3))
@@ -72,6 +77,15 @@ def monitor(spec, res, acc, complete=True):
         if s["hf"] and sc >= 0 and sc not in flagged:
             flagged.add(sc)
             events.append((sc, s))
+            # a harvest has a reason: the crop matured or died, or the next day is the season's
+            # latest harvest date (whose dates C07 checks) - the end of the window is none
+            hd_ = tr.init.get("harvest") or []
+            by_date = sc < len(hd_) and (s["date"] + dt.timedelta(days=1)).date() == hd_[sc].date()
+            cov["harvest_reason_checks"] += 1
+            if not (s["mature"] or s["dead"] or by_date):
+                acc.add("summary-rows", f"season {sc} is recorded as harvested at step {t} ({s['date'].date()}) although the crop "
+                        f"neither matured nor died and the latest harvest date {hd_[sc].date() if sc < len(hd_) else None} is not reached",
+                        dict(t=t, season=sc))
         if not s["gs"]:
             prev = None
             continue
